@@ -149,6 +149,17 @@ def run(chk, replay=None):
             chk.notes.append("TSan observer run failed: %s" % err)
         for rep in races[:3]:
             chk.violation("ThreadSanitizer observed a data race during a warm run", {"report": rep[:3000]})
+        # a fresh process in which the threads run module-level and table operations only (first use included, no *_simple call): the
+        # warm-up protocol does not apply to them, so every race report is illegal here too
+        env2 = dict(env, CONC_CLASS0_ONLY="1")
+        raw2, err2, stderr2 = run_driver(tdir, "cold", 8, 120 if quick else 600, chk.seed + 5, "tsan-cold", env=env2, timeout=1800)
+        races2 = re.findall(r"WARNING: ThreadSanitizer: data race.*?(?=\n\n|\Z)", stderr2, flags=re.S)
+        chk.cov["tsan_observer_cold_module_level"] = {"ran": raw2 is not None, "race_reports": len(races2)}
+        chk.case(("tsan", "cold-class0", 8))
+        if raw2 is None and err2:
+            chk.notes.append("TSan observer (cold, module-level operations) failed: %s" % err2)
+        for rep in races2[:3]:
+            chk.violation("ThreadSanitizer observed a data race between module-level / table operations in a fresh process", {"report": rep[:3000]})
     except Infra as e:
         chk.cov["tsan_observer"] = {"ran": False, "why": str(e)[:300]}
         chk.notes.append("TSan observer unavailable (not a verdict)")
